@@ -265,6 +265,7 @@ func checkC12(c *hx.Ctx) {
 		kind   string
 		alt    *ref.Op   // a legitimate competitor of the operation that closes the cycle (same revealed key, fresh successor)
 		opsND  []*ref.Op // recovery chains: the same cycle built from recovers that carry no delta (legal once anchored)
+		alias  []*ref.Op // k>=2: the same ring, but the last operation commits to ANOTHER base64url spelling of the first key's commitment
 	}
 	var cycles []cyc
 	cr := c.Rng("cycles")
@@ -321,7 +322,25 @@ func checkC12(c *hx.Ctx) {
 							opsND = append(opsND, u.MkSigned(fmt.Sprintf("rec-no-delta:%d->%d", i, (i+1)%k), "recover", ring[i], ring[(i+1)%k].Commitment(u.Code), newKey("uk").Commitment(u.Code), nil, SignedOpts{OmitDelta: true}))
 						}
 					}
-					cycles = append(cycles, cyc{u, prefix, ops, k, kind, alt, opsND})
+					// seeded C12-19: a next commitment that is a non-canonical base64url spelling (unused low bits of the last character
+					// set) of an already consumed commitment. Commitments are compared as written, so this is a dead end, not a way back:
+					// the operation applies and nothing can follow it - in particular not a second use of the first key.
+					var alias []*ref.Op
+					if k >= 2 {
+						alias = append(alias, ops[:k-1]...)
+						back := ref.AltSpelling(ring[0].Commitment(u.Code))
+						if back != "" && back != ring[0].Commitment(u.Code) {
+							patches := []interface{}{patchAddServices(svcEntry("calias", "cyc", "https://cycle.example/alias"))}
+							if kind == "update" {
+								alias = append(alias, u.MkSigned("upd:alias-of-first", "update", ring[k-1], "", back, patches, SignedOpts{}))
+							} else {
+								alias = append(alias, u.MkSigned("rec:alias-of-first", "recover", ring[k-1], back, newKey("uk").Commitment(u.Code), patches, SignedOpts{}))
+							}
+						} else {
+							alias = nil
+						}
+					}
+					cycles = append(cycles, cyc{u, prefix, ops, k, kind, alt, opsND, alias})
 				}
 			}
 		}
@@ -335,22 +354,30 @@ func checkC12(c *hx.Ctx) {
 		hx.Parallel(len(orders), 16, func(oi int) {
 			ord := orders[oi]
 			// variants: 0 plain; 1 every op replayed later; 2/3 the last one / two operations of the anchoring order are unpublished
-			for variant := 0; variant < 8; variant++ {
+			// 8: the ring closed through another spelling of the first commitment, every operation replayed later
+			for variant := 0; variant < 9; variant++ {
 				if c.Violations() > 8 {
 					return
 				}
-				if variant >= 6 && cy.kind != "recover" {
+				if (variant == 6 || variant == 7) && cy.kind != "recover" {
 					continue
 				}
 				if (variant == 2 || variant == 3) && cy.kind == "recover" {
 					continue // unpublished full operations followed by published updates are outside the statements (Appendix B)
+				}
+				src := cy.ops
+				if variant == 8 {
+					if cy.alias == nil {
+						continue
+					}
+					src = cy.alias
 				}
 				H := []*ref.Op{Place(cy.u.Ops["C"], 1000, 9, "refC", p.GenesisTime)}
 				for i, o := range cy.prefix {
 					H = append(H, Place(o, uint64(1002+2*i), 1, fmt.Sprintf("pre%d", i), p.GenesisTime))
 				}
 				for pos, idx := range ord {
-					if idx >= len(cy.ops) {
+					if idx >= len(src) {
 						continue
 					}
 					refID := fmt.Sprintf("ref%d", pos)
@@ -358,7 +385,7 @@ func checkC12(c *hx.Ctx) {
 					if (variant == 2 || variant == 3) && pos >= len(ord)-(variant-1) {
 						refID, t = "", uint64(5000+pos) // unpublished
 					}
-					o := cy.ops[idx]
+					o := src[idx]
 					// 6: every recover of the cycle carries no delta; 7: only the one that closes the cycle
 					if variant == 6 || (variant == 7 && idx == cy.k-1) {
 						o = cy.opsND[idx]
@@ -379,10 +406,10 @@ func checkC12(c *hx.Ctx) {
 						}
 					}
 				}
-				if variant == 1 {
+				if variant == 1 || variant == 8 {
 					for pos, idx := range ord {
-						if idx < len(cy.ops) {
-							H = append(H, Place(cy.ops[idx], uint64(1100+10*pos), uint64(pos), fmt.Sprintf("rep%d", pos), p.GenesisTime))
+						if idx < len(src) {
+							H = append(H, Place(src[idx], uint64(1100+10*pos), uint64(pos), fmt.Sprintf("rep%d", pos), p.GenesisTime))
 						}
 					}
 				}
@@ -406,8 +433,8 @@ func checkC12(c *hx.Ctx) {
 				}
 				// the op closing the cycle must never be applied: at most k-1 of the cycle ops (k=1: none) on top of the prefix
 				allowed := cy.k - 1
-				if variant == 4 {
-					allowed++ // the legitimate competitor
+				if variant == 4 || variant == 8 {
+					allowed++ // the legitimate competitor / the operation that commits to a dead end
 				}
 				if merr == nil && len(st.Applied)-1-len(cy.prefix) > allowed {
 					c.Violation("C12 reference model applied a full cycle (model defect)", replay)
@@ -426,7 +453,10 @@ func checkC12(c *hx.Ctx) {
 				if variant == 5 {
 					c.Count("cycles_spanning_a_protocol_upgrade")
 				}
-				if variant >= 6 {
+				if variant == 8 {
+					c.Count("rings_closed_through_another_spelling_of_a_consumed_commitment")
+				}
+				if variant == 6 || variant == 7 {
 					c.Count("recovery_cycles_closed_by_recovers_without_delta")
 				}
 				c.CountN("applied_cycle_ops", len(st.Applied)-1)
@@ -441,6 +471,7 @@ func checkC12(c *hx.Ctx) {
 	c.Floor("cycles_closed_by_unpublished_operations", 50)
 	c.Floor("cycles_with_a_legitimate_competitor_of_the_closing_operation", 50)
 	c.Floor("cycles_spanning_a_protocol_upgrade", 50)
+	c.Floor("rings_closed_through_another_spelling_of_a_consumed_commitment", 50)
 	c.Floor("self_commit_refused_by_writer_gate", 30)
 	c.Floor("recovery_cycles_closed_by_recovers_without_delta", 50)
 	c.Floor("self_commit_rejected:update", 16)
